@@ -35,7 +35,8 @@ IMG_REAL = ['all of pixman (33 objects compiled from /repo/pixman with -DPIXMAN_
 PROPS['C15'] = {
     'level': 'fault_enumeration',
     'passes': [
-        {'variant': 'asan', 'binary': 'fault', 'runs': [24000, 60000], 'deadline_s': [150, 2400]},
+        {'variant': 'asan', 'binary': 'fault', 'runs': [24000, 60000], 'deadline_s': [150, 2400], 'tag': 'fault'},
+        {'variant': 'asan', 'binary': 'fault-short', 'runs': [8000, 20000], 'deadline_s': [150, 2400], 'tag': 'short-scanline'},
     ],
     'crash_property': 'C15',
     'rule': ("one evaluation = one seeded scenario of 8-28 API operations (constructors, setters, region algebra, composites incl. >2044-pixel-wide, "
@@ -82,7 +83,8 @@ PROPS['C19'] = {
 }
 PROPS['C04'] = {
     'level': 'exploration',
-    'passes': [{'variant': 'asan', 'binary': 'cfg', 'runs': [12000, 400000], 'deadline_s': [150, 2400]}],
+    'passes': [{'variant': 'asan', 'binary': 'cfg', 'runs': [12000, 400000], 'deadline_s': [150, 2400], 'tag': 'gcc'},
+               {'variant': 'casan', 'binary': 'cfg', 'runs': [6000, 200000], 'deadline_s': [150, 2400], 'tag': 'clang'}],
     'crash_property': 'C04',
     'rule': ("one evaluation = one seeded scene biased to the geometry the property lists (1-pixel and >32767-pixel images, request rectangles partly or wholly outside, "
              "offsets near +-2^15, extreme scale / translation / near-singular projective transforms, convolution kernels, trapezoids with endpoints at +-32767.99, glyphs half "
